@@ -250,11 +250,20 @@ def prop_fault(case, r):
             }.get(post)  # fmt: skip
             if post == 'readonly-problem-param':
                 prob = Sx.levels[0].prob
-                name = sorted(prob._parNamesReadOnly)[0] if prob._parNamesReadOnly else None
-                if name is None:
-                    r.discard('problem has no read-only parameter')
-                    return
-                setattr(prob, name, getattr(prob, name))
+                # the names come from the class sources (registered with readOnly=True in the class and in its bases), not from the
+                # object's own registry, which is what is under test (seed C20-3 emptied part of the registry)
+                names = ['nvars', 'lambdas', 'u0'] if base['problem'] == 'dahlquist' else ['nvars', 'stencil_type', 'order', 'bc', 'nu']
+                accepted = []
+                for name in names:
+                    try:
+                        setattr(prob, name, getattr(prob, name))
+                        accepted.append(name)
+                    except Exception:
+                        pass
+                r.check(set(names) <= set(prob.params), 'readonly-param-not-in-params', lambda: f'{sorted(set(names) - set(prob.params))} missing from prob.params')
+                if not accepted:
+                    raise AttributeError('all read-only parameters rejected the assignment')
+                fault = f'{fault} (parameters {accepted} of {type(prob).__name__})'
             else:
                 setattr(target, 'definitely_not_declared_attr', 1)
         else:
